@@ -2,7 +2,7 @@
    check_corr: the model computes the same observation.  check_spec: the property's specification (Spec.v) holds of
    the implementation's observation.  Must not import Proofs/Props. *)
 From Coq Require Import ZArith NArith QArith Bool List.
-Require Import QV.common.Util QV.C15.Model QV.C15.Spec QV.C15.ModelQ QV.C15.ModelMC.
+Require Import QV.common.Util QV.C15.Model QV.C15.Spec QV.C15.ModelQ QV.C15.ModelMC QV.C15.ModelF.
 Import ListNotations.
 Open Scope Z_scope.
 
@@ -34,6 +34,13 @@ Inductive case :=
    of a fresh instantiation + make_compatible with the updated values; leaf waveforms as lists of atoms *)
 | CCompat (p : pt) (vals : list (name * Z)) (V : list name) (mn q : Z) (ups : list (list (name * Z)))
           (before : cobs) (after : list cotree) (fresh : list cobs)
+(* a single volatile repetition count whose expression is evaluated in binary64 (fl = true) or on exact rationals
+   (fl = false; TimeType values), ModelF.v: instantiation (None = error), after every update the count and the
+   "Repetition count is no integer" warning, the count of a fresh instantiation, and the sequencer table of a
+   TaborProgram after update_volatile_parameters / of a fresh compilation *)
+| CFloat (fl : bool) (e : fexpr) (vals : list (name * Q)) (ups : list (list (name * Q)))
+         (before : option (option Z)) (after : list (Z * bool)) (fresh : list (option (option Z)))
+         (tab : list (list Z * option (list Z)))
 | CSpecOnly
 | CCrash.
 
@@ -154,6 +161,33 @@ Definition fresh_eqb (a b : option (option Z)) : bool :=
   | _, _ => false
   end.
 
+(* --- float counts (ModelF.v) --- *)
+Definition fresh_of_tol (fl : bool) (q : Q) : option (option Z) :=
+  match count_fresh_tol fl q with
+  | None => None
+  | Some c => Some (if 0 <? c then Some c else None)
+  end.
+Fixpoint float_steps (fl : bool) (e : fexpr) (vals : list (name * Q)) (ups : list (list (name * Q)))
+  : list ((Z * bool) * option (option Z) * (list Z * option (list Z))) :=
+  match ups with
+  | [] => []
+  | us :: r =>
+      let vals' := overrideQ us vals in
+      match evalF fl (envQ vals') e with
+      | Some q => let fr := fresh_of_tol fl q in
+                  ((count_update q, update_warns fl q), fr,
+                   (* root = the volatile loop itself: advanced entry (count, table 1), table [(1, waveform)] *)
+                   ([count_update q; 1], match fr with Some (Some c) => Some [c; 1] | _ => None end))
+                  :: float_steps fl e vals' r
+      | None => []
+      end
+  end.
+Definition float_before (fl : bool) (e : fexpr) (vals : list (name * Q)) : option (option Z) :=
+  match evalF fl (envQ vals) e with Some q => inst_volatile fl q | None => None end.
+Definition zb_eqb (a b : Z * bool) : bool := (fst a =? fst b) && Bool.eqb (snd a) (snd b).
+Definition tabf_eqb (a b : list Z * option (list Z)) : bool :=
+  list_eqb Z.eqb (fst a) (fst b) &&
+  match snd a, snd b with Some x, Some y => list_eqb Z.eqb x y | None, None => true | _, _ => false end.
 
 (* --- make_compatible --- *)
 (* lengths in samples of the atoms of the make_compatible stream *)
@@ -236,6 +270,16 @@ Definition check_corr (c : case) : bool :=
       | None => match after with [] => true | _ => false end
       end &&
       list_eqb cobs_eqb (compat_freshes p vals V mn q ups) fresh
+  | CFloat fl e vals ups before after fresh tab =>
+      fresh_eqb (float_before fl e vals) before &&
+      match before with
+      | Some (Some _) =>
+          let st := float_steps fl e vals ups in
+          list_eqb zb_eqb (map (fun x => fst (fst x)) st) after &&
+          list_eqb fresh_eqb (map (fun x => snd (fst x)) st) fresh &&
+          list_eqb tabf_eqb (map snd st) tab
+      | _ => match after with [] => true | _ => false end
+      end
   | CSpecOnly => true
   | CCrash => false
   end.
@@ -435,6 +479,18 @@ Definition check_spec (c : case) : bool :=
                          | Some None => fst af =? 0
                          | None => false
                          end) (combine after fresh)
+  | CFloat _ _ _ ups before after fresh tab =>
+      (* the instantiation exists; after every update the count is the count of a fresh instantiation with the new
+         values (which must exist) and the Tabor table is the table of a fresh compilation *)
+      match before with Some (Some _) => true | _ => false end &&
+      Nat.eqb (length after) (length ups) && Nat.eqb (length fresh) (length ups) && Nat.eqb (length tab) (length ups) &&
+      forallb (fun af => match snd af with
+                         | Some (Some c) => fst (fst af) =? c
+                         | Some None => fst (fst af) =? 0
+                         | None => false
+                         end) (combine after fresh) &&
+      (* (advanced-table counts ++ sequencer-table counts); no fresh program = nothing is played: some count is 0 *)
+      forallb (fun t => match snd t with Some x => list_eqb Z.eqb (fst t) x | None => existsb (Z.eqb 0) (fst t) end) tab
   | CCompat _ _ V _ _ ups before after fresh => check_spec_compat V ups before after fresh
   | CSpecOnly => true
   | CCrash => false
